@@ -54,3 +54,8 @@ Fixpoint send_calls (cfg : config) (cs : list (form * call)) (script : list sink
       match send_calls cfg r script' with Some os => Some (o :: os) | None => None end
     end
   end.
+
+(* CountedExt::incr / decr and their _with_tags forms are count_with_tags(key, 1) / count_with_tags(key, -1)
+   (client.rs): the argument the correspondence glue gives the model for the harness's `incr` / `decr` calls *)
+Definition incr_arg : arg := AI64 1%Z.
+Definition decr_arg : arg := AI64 (-1)%Z.
